@@ -7,6 +7,8 @@ claimed = {
  "C11": ("proof", "Unfragment: result ordered by start; no two same-text cues touch or overlap; every result cue is an original cue with unchanged start and an end that only grew; the set of texts on screen at every instant is preserved (forall-exists clause over an opaque on-screen predicate); frame. Inverse law w.r.t. Fragment is not decided.", "contract on Subtitles.Unfragment with nested loop invariants; abstract cue text; SMT discharge", "4 C11"),
  "C12": ("proof", "Order: permutation + sorted + stable against an assumed sort.SliceStable contract whose comparator is proved to be a strict weak order; Merge: ordered stable union of both lists, receiver-wins map union (map-range invariant over a ghost visited set), argument unchanged (frame obligations).", "contracts on Subtitles.Order and Subtitles.Merge, ghost permutation witnesses, SMT discharge", "4 C12"),
  "C13": ("proof", "Optimize/removeUnusedRegionsAndStyles: kept regions = used regions, kept styles are a subset containing every directly used style, closed under inheritance (closure) and supported (nothing else is kept), values and cues untouched (frame); RemoveStyling: maps empty, every cue/run style pointer nil, only styling fields assigned (frame). Five nested/map-range loop invariants incl. a ghost frontier for the parent walk.", "contracts on Subtitles.Optimize, removeUnusedRegionsAndStyles, RemoveStyling; map-range loops with ghost visited sets; SMT discharge", "4 C13"),
+ "C15": ("proof", "ApplyLinearCorrection under an IEEE-754 rounding model (monotone correctly-rounded operations, relative error 2^-53): every boundary is within 1 microsecond of the affine map through the two reference points (nonlinear real lemma), boundary order is preserved, list order/identity untouched; only StartAt/EndAt assigned (frame).", "contract on Subtitles.ApplyLinearCorrection; float rounding model as uninterpreted monotone functions; NRA lemma; SMT discharge", "4 C15"),
+ "C16": ("proof", "Timestamp codec kernels: formatDuration's output is proved equal (as a concatenation rope) to the canonical hh:mm:ss<sep>fraction rendering with the exact integer fields, with truncation, range and monotonicity lemmas; per-format wrappers (SRT/WebVTT/SSA) use the right separator and digit count; STL byte and string timecodes have the exact h/m/s/frame fields; format(parse(b)) == b at 25 and 30 fps (after repair of a genuine defect), parse(format(t)) is the frame boundary at or before t, a second write is identical. float64 steps are justified by QF_BVFP library lemmas discharged on every run. Reader-side parse-after-format for the text formats is a bounded stand-in (thorough tier), not proved.", "contracts on formatDuration*, format/parseDurationSTL*; lemma harnesses; FP library lemmas; bounded stand-in for parse(format(t))", "4 C16"),
  "C14": ("proof", "Full functional contract of ForceDuration and Duration: kept/trimmed/removed cues characterised per index, filler presence/shape, resulting duration; one loop invariant; every path discharged.", "contracts on Subtitles.ForceDuration / Duration, SMT discharge", "4 C14"),
 }
 na = {
